@@ -245,6 +245,13 @@ theorem rtu_req_gives_up_unknown (buf : Bytes) (hl : 257 ≤ buf.length)
     rw [List.getElem?_drop, List.getElem?_eq_getElem hlt]
   rw [rtu_req_reject _ _ hc (hnoise d hd _ (List.getElem?_eq_getElem hlt))]; rfl
 
+/-- clause 3 as an equivalence: an error **exactly** when the buffer is empty, or has at least 257 bytes
+and all of the first 256 offsets are rejected — in particular never when a frame could start there -/
+theorem rtu_req_err_iff (buf : Bytes) :
+    (Rtu.decodeReq buf).isErr = true ↔
+      buf = [] ∨ (257 ≤ buf.length ∧ ∀ d, d < 256 → (Rtu.attemptReq (buf.drop d)).isErr = true) :=
+  scan_isErr_iff Rtu.attemptReq buf
+
 /-- the complementary case: every examined offset rejected, at most 256 bytes ⇒ "incomplete" -/
 theorem rtu_req_incomplete_short (buf : Bytes) (hne : buf ≠ []) (hl : buf.length ≤ 256)
     (herr : ∀ d, d + 1 < buf.length → (Rtu.attemptReq (buf.drop d)).isErr = true) :
@@ -346,6 +353,13 @@ theorem rtu_rsp_gives_up_unknown (buf : Bytes) (hl : 257 ≤ buf.length)
   have hc : (buf.drop d)[1]? = some buf[d + 1] := by
     rw [List.getElem?_drop, List.getElem?_eq_getElem hlt]
   rw [rtu_rsp_reject _ _ hc (hnoise d hd _ (List.getElem?_eq_getElem hlt))]; rfl
+
+/-- clause 3 as an equivalence: an error **exactly** when the buffer is empty, or has at least 257 bytes
+and all of the first 256 offsets are rejected — in particular never when a frame could start there -/
+theorem rtu_rsp_err_iff (buf : Bytes) :
+    (Rtu.decodeRsp buf).isErr = true ↔
+      buf = [] ∨ (257 ≤ buf.length ∧ ∀ d, d < 256 → (Rtu.attemptRsp (buf.drop d)).isErr = true) :=
+  scan_isErr_iff Rtu.attemptRsp buf
 
 /-- the complementary case: every examined offset rejected, at most 256 bytes ⇒ "incomplete" -/
 theorem rtu_rsp_incomplete_short (buf : Bytes) (hne : buf ≠ []) (hl : buf.length ≤ 256)
@@ -449,6 +463,13 @@ theorem tcp_req_gives_up_unknown (buf : Bytes) (hl : 263 ≤ buf.length)
     rw [List.getElem?_drop, List.getElem?_eq_getElem hlt]
   rw [tcp_req_reject _ _ hc (hnoise d hd _ (List.getElem?_eq_getElem hlt))]; rfl
 
+/-- clause 3 as an equivalence: an error **exactly** when the buffer is empty, or has at least 257 bytes
+and all of the first 256 offsets are rejected — in particular never when a frame could start there -/
+theorem tcp_req_err_iff (buf : Bytes) :
+    (Tcp.decodeReq buf).isErr = true ↔
+      buf = [] ∨ (257 ≤ buf.length ∧ ∀ d, d < 256 → (Tcp.attemptReq (buf.drop d)).isErr = true) :=
+  scan_isErr_iff Tcp.attemptReq buf
+
 /-- the complementary case: every examined offset rejected, at most 256 bytes ⇒ "incomplete" -/
 theorem tcp_req_incomplete_short (buf : Bytes) (hne : buf ≠ []) (hl : buf.length ≤ 256)
     (herr : ∀ d, d + 1 < buf.length → (Tcp.attemptReq (buf.drop d)).isErr = true) :
@@ -550,6 +571,13 @@ theorem tcp_rsp_gives_up_unknown (buf : Bytes) (hl : 263 ≤ buf.length)
   have hc : (buf.drop d)[7]? = some buf[d + 7] := by
     rw [List.getElem?_drop, List.getElem?_eq_getElem hlt]
   rw [tcp_rsp_reject _ _ hc (hnoise d hd _ (List.getElem?_eq_getElem hlt))]; rfl
+
+/-- clause 3 as an equivalence: an error **exactly** when the buffer is empty, or has at least 257 bytes
+and all of the first 256 offsets are rejected — in particular never when a frame could start there -/
+theorem tcp_rsp_err_iff (buf : Bytes) :
+    (Tcp.decodeRsp buf).isErr = true ↔
+      buf = [] ∨ (257 ≤ buf.length ∧ ∀ d, d < 256 → (Tcp.attemptRsp (buf.drop d)).isErr = true) :=
+  scan_isErr_iff Tcp.attemptRsp buf
 
 /-- the complementary case: every examined offset rejected, at most 256 bytes ⇒ "incomplete" -/
 theorem tcp_rsp_incomplete_short (buf : Bytes) (hne : buf ≠ []) (hl : buf.length ≤ 256)
